@@ -9,6 +9,14 @@ message that is still queued when it expires; publisher confirms ack every publi
 import re
 
 
+class SimCrash(BaseException):
+    """the engine process dies here (raised by the broker after the n-th broker operation of a connection);
+    a BaseException so that no `except Exception` in the code under test swallows it"""
+    def __init__(self, conn):
+        super().__init__("simulated crash of %s" % conn.ident)
+        self.conn = conn
+
+
 class Msg(object):
     __slots__ = ("body", "props", "exchange", "routing_key", "redelivered", "published_at", "seq", "expires_at")
 
@@ -79,6 +87,8 @@ class Broker(object):
         self.seq = 0
         self.anon = 0
         self.observers = []         # callables(frame dict)
+        self.crash_plan = None      # (connection ident, n): die after that connection's n-th publish/ack
+        self.op_count = {}
 
     # ---- logging
     def frame(self, **kw):
@@ -88,6 +98,14 @@ class Broker(object):
         for o in self.observers:
             o(kw)
         return kw
+
+    def maybe_crash(self, ch):
+        """called after a publish / ack of `ch` has taken effect"""
+        ident = ch.connection.ident
+        self.op_count[ident] = self.op_count.get(ident, 0) + 1
+        if self.crash_plan and self.crash_plan[0] == ident and self.crash_plan[1] == self.op_count[ident]:
+            self.crash_plan = None
+            raise SimCrash(ch.connection)
 
     # ---- declarations
     def exchange_declare(self, ch, exchange, exchange_type, passive, durable, auto_delete, internal, arguments):
@@ -191,6 +209,7 @@ class Broker(object):
             from .spec import Basic, Frame
             ch.publish_seq += 1
             self.pending.append(("confirm", ch, Frame(Basic.Ack(ch.publish_seq, False))))
+        self.maybe_crash(ch)
 
     # ---- scheduler interface
     def purge_expired(self):
@@ -270,6 +289,7 @@ class Broker(object):
             queue, m = ch.unacked.pop(t)
             self.frame(op="ack", conn=ch.connection.ident, ch=ch.channel_number, tag=t, queue=queue, message_id=m.props.message_id,
                        correlation_id=m.props.correlation_id, seq=m.seq)
+        self.maybe_crash(ch)
 
     def requeue_channel(self, ch, mark=True):
         for t in sorted(ch.unacked, reverse=True):
